@@ -288,6 +288,7 @@ func runC08(w *World, r *Report) {
 	ctxs := w.ctxTable()
 	phaseTables(w, r, "C08")
 	c08TypeMappingSiblings(w, r)
+	c08RepeatIsModelled(w, r, ctxs)
 	// ---- 1. alias normalisation ----
 	const ruleAlias = "C08/alias-normalisation"
 	sws := normalisingSwitches(w)
@@ -365,6 +366,17 @@ func runC08(w *World, r *Report) {
 			}
 			nRaw++
 			if fn.Pkg == w.Model && fn.Name() == "GetType" {
+				// ... and what GetType hands out is the normalised spelling: the raw text reaches a result only through a normalising
+				// table (a call of the function that holds it, or the table sits in this very function)
+				normFns := normaliserFuncs(w, sws)
+				own := normFns[fn]
+				if !own {
+					if v, isVal := ins.(ssa.Value); isVal {
+						if at := rawReachesResult(v, normFns, 0, map[ssa.Value]bool{}); at != nil {
+							r.fail(ruleRaw, fnKey(fn)+" hands out the normalised spelling", w.instrPos(at), fmt.Sprintf("%s.%s - the type as it was spelled - is returned without passing a normalising table: `uint16 n @lengthOf(x)` and `u16 n @lengthOf(x)` then name different types to every generator (the long spelling has no row in their type tables)", tn, f))
+						}
+					}
+				}
 				return
 			}
 			bad = append(bad, fmt.Sprintf("%s.%s at %s", tn, f, w.instrPos(ins)))
@@ -737,4 +749,70 @@ func (w *World) memberOfFreshArgument(fn *ssa.Function, base ssa.Value) bool {
 		})
 	}
 	return okAll && stores > 0
+}
+
+// rawReachesResult: v flows to a return of its function through identities, phis and concatenations only - not through a call of
+// one of the named functions. Returns the offending return (nil if none).
+// normaliserFuncs: the functions of internal/model that hold a normalising table - the switch itself, or a lookup in the
+// package-level map that is the table.
+func normaliserFuncs(w *World, sws []switchTable) map[*ssa.Function]bool {
+	out := map[*ssa.Function]bool{}
+	for _, fn := range w.srcFuncs {
+		if fn.Pkg != w.Model || fn.Blocks == nil {
+			continue
+		}
+		for _, st := range sws {
+			name := st.fn
+			recv := ""
+			if i := strings.LastIndex(name, "."); i >= 0 {
+				recv, name = strings.TrimPrefix(name[:i], "*"), name[i+1:]
+			}
+			if fn.Name() == name && recvNamedCore(fn) == recv {
+				out[fn] = true
+			}
+			// the table as a package-level map: whoever looks a spelling up in it
+			forEachInstr(fn, func(_ *ssa.BasicBlock, ins ssa.Instruction) {
+				lk, ok := ins.(*ssa.Lookup)
+				if !ok {
+					return
+				}
+				if g, ok := valueRoot(lk.X).(*ssa.Global); ok && g.Name() == st.fn {
+					out[fn] = true
+				}
+			})
+		}
+	}
+	return out
+}
+
+func rawReachesResult(v ssa.Value, normFns map[*ssa.Function]bool, depth int, seen map[ssa.Value]bool) ssa.Instruction {
+	if v == nil || depth > 8 || seen[v] || v.Referrers() == nil {
+		return nil
+	}
+	seen[v] = true
+	for _, ref := range *v.Referrers() {
+		switch x := ref.(type) {
+		case *ssa.Return:
+			return x
+		case *ssa.Phi:
+			if at := rawReachesResult(x, normFns, depth+1, seen); at != nil {
+				return at
+			}
+		case *ssa.ChangeType:
+			if at := rawReachesResult(x, normFns, depth+1, seen); at != nil {
+				return at
+			}
+		case *ssa.Call:
+			if f := x.Call.StaticCallee(); f != nil && normFns[f] {
+				continue
+			}
+			// any other call (ToLower, TrimSpace, a helper): its result is still the spelling as written
+			if isStringType(x.Type()) {
+				if at := rawReachesResult(x, normFns, depth+1, seen); at != nil {
+					return at
+				}
+			}
+		}
+	}
+	return nil
 }
